@@ -156,16 +156,16 @@ def k2_post(line, impl_out, model_out):
             vals = np.array([float(Fraction(t)) for t in toks])
             colsum, G = vals[:nf], vals[nf:].reshape(nf, nf)
             msgs = []
-            if np.abs(mean - colsum / n).max() > 1e-5:
+            if not (np.abs(mean - colsum / n).max() <= 1e-5):
                 msgs.append(f"mean_ differs from column sums / n by {np.abs(mean - colsum / n).max():.3g}")
             ev = np.sort(np.linalg.eigvalsh(G))[::-1]
             scale = max(1.0, float(ev[0]))
-            if np.abs(sv ** 2 - ev[:k]).max() > 1e-4 * scale:
+            if not (np.abs(sv ** 2 - ev[:k]).max() <= 1e-4 * scale):
                 msgs.append(f"singular_values_^2 {sv ** 2} != top eigenvalues {ev[:k]} of the exact centred Gram matrix")
             for j in range(k):
                 if abs(V[j] @ V[j] - 1) > 1e-4:
                     msgs.append(f"component {j} is not a unit vector")
-                if np.abs(G @ V[j] - sv[j] ** 2 * V[j]).max() > 2e-4 * scale:
+                if not (np.abs(G @ V[j] - sv[j] ** 2 * V[j]).max() <= 2e-4 * scale):
                     msgs.append(f"component {j} is not an eigenvector of the exact centred Gram matrix "
                                 f"(residual {np.abs(G @ V[j] - sv[j] ** 2 * V[j]).max():.3g})")
             return ("pca-consistent" if not msgs else "pca-mismatch: " + "; ".join(msgs)), "pca-consistent"
@@ -239,18 +239,18 @@ def run_case(inp):
             p = clf.pca
             sv = np.asarray(p.singular_values_, dtype=np.float64)
             comp = np.asarray(p.components_, dtype=np.float64)
-            if np.abs(sv - S).max() > 2e-4 * S.max():
+            if not (np.abs(sv - S).max() <= 2e-4 * S.max()):
                 V("singular-values", f"singular values {sv.tolist()} differ from the exact SVD {S.tolist()} "
                                      f"(n={n}, voxels={int(np.prod(shape))}, chunks {chunks})")
                 continue
-            if np.abs(np.asarray(p.mean_) - mu).max() > 1e-4 * (1 + np.abs(mu).max()):
+            if not (np.abs(np.asarray(p.mean_) - mu).max() <= 1e-4 * (1 + np.abs(mu).max())):
                 V("mean", "mean_ differs from the column means of the masked stack")
             sign = np.sign(np.sum(comp * Vt, axis=1))
             sign[sign == 0] = 1
-            if np.abs(comp * sign[:, None] - Vt).max() > 2e-3:
+            if not (np.abs(comp * sign[:, None] - Vt).max() <= 2e-3):
                 V("components", f"components differ from the exact principal axes by "
                                 f"{np.abs(comp * sign[:, None] - Vt).max():.3g} (up to sign; chunks {chunks})")
-            if np.abs(proj * sign[None, :] - P).max() > 2e-3 * np.abs(P).max():
+            if not (np.abs(proj * sign[None, :] - P).max() <= 2e-3 * np.abs(P).max()):
                 V("projections", f"get_transform() differs from the exact projections by "
                                  f"{np.abs(proj * sign[None, :] - P).max():.3g} (chunks {chunks})")
             bases = clf.get_bases()
@@ -309,7 +309,7 @@ def run_case(inp):
                           f"(group, label) pairs {sorted(pairs)}")
         if not np.array_equal(pred, lab):
             V("predict", "predict() on the training stack differs from labels")
-        if np.abs(tr - np.asarray(clf.get_transform())).max() > 1e-4 * (1 + np.abs(tr).max()):
+        if not (np.abs(tr - np.asarray(clf.get_transform())).max() <= 1e-4 * (1 + np.abs(tr).max())):
             V("projections", "transform(stack) differs from get_transform()")
         parts = clf.split_clusters()
         if sorted(int(p.shape[0]) for p in parts) != sorted(int((lab == c).sum()) for c in range(g)):
